@@ -100,8 +100,9 @@ type nedge struct {
 }
 
 type inEdge struct {
-	st   *state
-	from *ssa.BasicBlock
+	st       *state
+	from     *ssa.BasicBlock
+	fromNode *node
 }
 
 type envKey struct {
@@ -124,6 +125,11 @@ type executor struct {
 	entry    *state // entry snapshot for old()
 	params   map[string]Value
 	assumes  []*Term
+	// assumeNode: node of the (acyclic) execution graph at which a hypothesis was first assumed; an
+	// obligation only takes hypotheses assumed at its own node or an ancestor (others are guarded by a
+	// path condition that is false or irrelevant there, so dropping them is sound and keeps queries small)
+	assumeNode map[*Term]*node
+	anc        map[*node]map[*node]bool
 	obls     []*Obligation
 	names    map[string]int
 	curCtx   string
@@ -425,7 +431,7 @@ func (ex *executor) addObligation(st *state, kind, text string, goal *Term, pos 
 		text = text + " [in " + shortFnKey(ex.key) + "]"
 	}
 	o.Name = r.oblNameFor(ex, kind, text)
-	o.Hyps = append([]*Term{}, r.assumes...)
+	o.Hyps = r.relevantAssumes()
 	if pos.IsValid() {
 		o.Pos = ex.eng.fset.Position(pos)
 	}
@@ -454,7 +460,16 @@ func (ex *executor) assume(st *state, fact *Term) {
 		return
 	}
 	r := ex.root()
-	r.assumes = append(r.assumes, Implies(st.pc, fact))
+	h := Implies(st.pc, fact)
+	r.assumes = append(r.assumes, h)
+	if r.curNode != nil {
+		if r.assumeNode == nil {
+			r.assumeNode = map[*Term]*node{}
+		}
+		if _, seen := r.assumeNode[h]; !seen {
+			r.assumeNode[h] = r.curNode
+		}
+	}
 }
 
 // ---------- heaps in states ----------
@@ -687,4 +702,20 @@ func (ex *executor) classifyCells() {
 			}
 		}
 	}
+}
+
+// relevantAssumes: hypotheses assumed before the body started, at the current node, or at one of its ancestors.
+func (r *executor) relevantAssumes() []*Term {
+	out := make([]*Term, 0, len(r.assumes))
+	var anc map[*node]bool
+	if r.curNode != nil && r.anc != nil {
+		anc = r.anc[r.curNode]
+	}
+	for _, h := range r.assumes {
+		if n := r.assumeNode[h]; n != nil && anc != nil && n != r.curNode && !anc[n] {
+			continue
+		}
+		out = append(out, h)
+	}
+	return out
 }
